@@ -365,6 +365,87 @@ fn fd_adapters(ctx: &Ctx, thorough: bool) -> Vec<String> {
             }
         }
     }
+    // descriptors on which even an empty call is observable: the wrong access mode (every call
+    // fails with EBADF, std issues the syscall for an empty buffer too) and datagram sockets
+    // (every write(2), also an empty one, is a message; message boundaries on the read side)
+    {
+        use std::fs::OpenOptions;
+        use std::os::unix::net::UnixDatagram;
+        let reopen = |f: &std::fs::File, write: bool| -> std::fs::File {
+            let path = format!("/proc/self/fd/{}", f.as_raw_fd());
+            if write {
+                OpenOptions::new().write(true).open(path).unwrap()
+            } else {
+                OpenOptions::new().read(true).open(path).unwrap()
+            }
+        };
+        let data = content(9);
+        for seq in &seqs {
+            {
+                let rep = Rep { ctx, adapter: "File(read on a write-only descriptor)" };
+                let (fa, fb) = (file_with(&data, 0), file_with(&data, 0));
+                let (mut a, mut b) = (reopen(&fa, true), reopen(&fb, true));
+                drive_reader(&rep, 9, 0, seq, &mut a, &mut b, &|_, _| (file_state(&fa), file_state(&fb)));
+            }
+            {
+                let rep = Rep { ctx, adapter: "OwnedFd(write on a read-only descriptor)" };
+                let (fa, fb) = (file_with(&data, 0), file_with(&data, 0));
+                let mut a: OwnedFd = reopen(&fa, false).into();
+                let mut b = reopen(&fb, false);
+                drive_writer(&rep, 9, 0, seq, &mut a, &mut b, &|_, _| (file_state(&fa), file_state(&fb)));
+            }
+            {
+                // every write is one datagram
+                let rep = Rep { ctx, adapter: "OwnedFd(write to a datagram socket)" };
+                let (ta, ra) = UnixDatagram::pair().unwrap();
+                let (tb, rb) = UnixDatagram::pair().unwrap();
+                let mut a: OwnedFd = ta.into();
+                let mut b: std::fs::File = OwnedFd::from(tb).into();
+                drive_writer(&rep, 0, 0, seq, &mut a, &mut b, &|_, _| (String::new(), String::new()));
+                let drain = |r: &UnixDatagram| -> Vec<Vec<u8>> {
+                    r.set_nonblocking(true).unwrap();
+                    let mut msgs = Vec::new();
+                    let mut buf = [0u8; 64];
+                    while let Ok(n) = r.recv(&mut buf) {
+                        msgs.push(buf[..n].to_vec());
+                    }
+                    msgs
+                };
+                let (ma, mb) = (drain(&ra), drain(&rb));
+                if ma != mb {
+                    rep.bad("messages", 0, 0, seq, seq.len(), format!("datagrams received {:?} vs {:?}", ma.iter().map(|m| hex(m)).collect::<Vec<_>>(), mb.iter().map(|m| hex(m)).collect::<Vec<_>>()));
+                }
+            }
+            {
+                // message boundaries on the read side: datagrams of 4, 0, 9 and 1 bytes queued
+                let rep = Rep { ctx, adapter: "OwnedFd(read from a datagram socket)" };
+                let (ta, ra) = UnixDatagram::pair().unwrap();
+                let (tb, rb) = UnixDatagram::pair().unwrap();
+                for t in [&ta, &tb] {
+                    for m in [&data[..4], &data[..0], &data[..9], &data[..1]] {
+                        t.send(m).unwrap();
+                    }
+                }
+                ra.set_nonblocking(true).unwrap();
+                rb.set_nonblocking(true).unwrap();
+                let mut a: OwnedFd = ra.try_clone().unwrap().into();
+                let mut b: std::fs::File = OwnedFd::from(rb.try_clone().unwrap()).into();
+                drive_reader(&rep, 14, 0, seq, &mut a, &mut b, &|_, _| (String::new(), String::new()));
+                let drain = |r: &UnixDatagram| -> Vec<Vec<u8>> {
+                    let mut msgs = Vec::new();
+                    let mut buf = [0u8; 64];
+                    while let Ok(n) = r.recv(&mut buf) {
+                        msgs.push(buf[..n].to_vec());
+                    }
+                    msgs
+                };
+                let (ma, mb) = (drain(&ra), drain(&rb));
+                if ma != mb {
+                    rep.bad("stream-state", 14, 0, seq, seq.len(), format!("datagrams left {:?} vs {:?}", ma.len(), mb.len()));
+                }
+            }
+        }
+    }
     // TcpStream over loopback, if the sandbox has one
     match std::net::TcpListener::bind("127.0.0.1:0") {
         Ok(listener) => {
@@ -443,7 +524,7 @@ fn fd_adapters(ctx: &Ctx, thorough: bool) -> Vec<String> {
 
 pub fn run(tier: Tier, replay: Option<String>) -> i32 {
     let ctx = crate::new_ctx("C13", tier, "exploration", &replay);
-    ctx.set_rule("for every adapter the crate provides (&[u8], &mut [u8], Vec<u8>, Cursor<&[u8]>, Cursor<Vec<u8>>, Cursor<&mut [u8]>, File, OwnedFd, BorrowedFd, UnixStream, TcpStream, Stdout): every stream length 0..=20, every cursor position 0..=22 plus u64::MAX-1 and u64::MAX, every buffer length 0..=20 (single calls, plain and exact form, two buffer misalignments) and every sequence of 2 and 3 consecutive calls over a boundary set of buffer lengths (fd adapters: lengths 0..=9, 2 calls) - each executed on the volatile adapter and on its std::io twin with an ordinary buffer; count / error kind, bytes landed, remaining stream / position / vector contents and canaries around the volatile buffer are compared after every call. One case = one call; non-trivial = non-empty buffer; distinct by construction.");
+    ctx.set_rule("for every adapter the crate provides (&[u8], &mut [u8], Vec<u8>, Cursor<&[u8]>, Cursor<Vec<u8>>, Cursor<&mut [u8]>, File, OwnedFd, BorrowedFd, UnixStream, TcpStream, Stdout): every stream length 0..=20, every cursor position 0..=22 plus u64::MAX-1 and u64::MAX, every buffer length 0..=20 (single calls, plain and exact form, two buffer misalignments) and every sequence of 2 and 3 consecutive calls over a boundary set of buffer lengths (fd adapters: lengths 0..=9, 2 calls; also descriptors opened in the wrong access mode and datagram sockets, where an empty call is observable: error kinds and the list of datagrams delivered / left are compared) - each executed on the volatile adapter and on its std::io twin with an ordinary buffer; count / error kind, bytes landed, remaining stream / position / vector contents and canaries around the volatile buffer are compared after every call. One case = one call; non-trivial = non-empty buffer; distinct by construction.");
     ctx.assume("stream state after a failed exact call is not compared (std leaves it unspecified)");
     if ctx.replay_of.is_some() {
         println!("replay: deterministic enumeration; re-running it");
